@@ -89,14 +89,97 @@ func (s *stubDSMR) Accept(_ context.Context, _ dsmr.Block) (dsmr.ExecutedBlock[*
 	return s.next, nil
 }
 
-// ---- recording decorator around the real Bonder: only remembers the answers of Bond
+// ---- crash points: a database that lets `budget` durable writes through (a Put, a Delete or the Write of a batch
+// each count as one atomic durable write) and then loses every later write with an error, as if the process had died
+// right before it.  budget < 0: no crash armed.
+type crashDB struct {
+	database.Database
+	budget  int
+	crashed bool
+}
+
+var errVerifCrash = errors.New("verif: process crashed")
+
+func (c *crashDB) spend() error {
+	if c.crashed {
+		return errVerifCrash
+	}
+	if c.budget < 0 {
+		return nil
+	}
+	if c.budget == 0 {
+		c.crashed = true
+		return errVerifCrash
+	}
+	c.budget--
+	return nil
+}
+
+func (c *crashDB) Put(k, v []byte) error {
+	if err := c.spend(); err != nil {
+		return err
+	}
+	return c.Database.Put(k, v)
+}
+
+func (c *crashDB) Delete(k []byte) error {
+	if err := c.spend(); err != nil {
+		return err
+	}
+	return c.Database.Delete(k)
+}
+
+func (c *crashDB) NewBatch() database.Batch { return &crashBatch{Batch: c.Database.NewBatch(), db: c} }
+
+type crashBatch struct {
+	database.Batch
+	db *crashDB
+}
+
+func (b *crashBatch) Write() error {
+	if err := b.db.spend(); err != nil {
+		return err
+	}
+	return b.Batch.Write()
+}
+
+// ---- recording decorator around the real Bonder: remembers the answers of Bond, injects Bond errors, and plays the
+// crash family: when the armed call dies on the crashDB, the process "restarts" (a new Bonder on the same underlying
+// database, nothing armed) and the interrupted call is retried once, as a node replaying the unfinished work would.
+// The Node above keeps its in-memory heap, so exactly one thing is under test: every Bond / Unbond is one atomic
+// durable step, and a retried call takes / releases the fee at most once.
 type recBonder struct {
 	inner  ichain.Bonder
+	cdb    *crashDB
 	oks    []bool
 	failAt int // >= 0: the Bond call with this index (within one BuildChunk) fails like a database read error
+
+	calls       int // Bond / Unbond calls since the driver armed the crash
+	crashAt     int // >= 0: the call with this index runs with crashBudget durable writes left
+	crashBudget int
+	crashBond   int // crashes that hit Bond / Unbond during the current Node call
+	crashUnbond int
 }
 
 var errVerifBond = errors.New("verif: bonder database failed")
+
+func (r *recBonder) arm() {
+	if r.crashAt >= 0 && r.calls == r.crashAt {
+		r.cdb.budget = r.crashBudget
+	}
+	r.calls++
+}
+
+// disarm + restart if the call died
+func (r *recBonder) crashed(err error) bool {
+	r.cdb.budget = -1
+	if !errors.Is(err, errVerifCrash) {
+		return false
+	}
+	r.cdb.crashed = false
+	r.inner = ichain.NewBonder(r.cdb) // restart on the same database
+	return true
+}
 
 func (r *recBonder) Bond(ctx context.Context, mutable state.Mutable, tx *chain.Transaction, fee uint64) (bool, error) {
 	if r.failAt >= 0 && len(r.oks) == r.failAt {
@@ -104,12 +187,30 @@ func (r *recBonder) Bond(ctx context.Context, mutable state.Mutable, tx *chain.T
 		r.failAt = -1
 		return false, errVerifBond
 	}
+	r.arm()
 	ok, err := r.inner.Bond(ctx, mutable, tx, fee)
+	if r.crashed(err) {
+		r.crashBond++
+		ok, err = r.inner.Bond(ctx, mutable, tx, fee)
+	}
 	r.oks = append(r.oks, ok)
 	return ok, err
 }
 
-func (r *recBonder) Unbond(tx *chain.Transaction) error { return r.inner.Unbond(tx) }
+func (r *recBonder) Unbond(tx *chain.Transaction) error {
+	r.arm()
+	err := r.inner.Unbond(tx)
+	if r.crashed(err) {
+		r.crashUnbond++
+		err = r.inner.Unbond(tx)
+	}
+	return err
+}
+
+// armCrash: the crashAt-th Bond / Unbond call of the next Node call runs with `budget` durable writes left
+func (r *recBonder) armCrash(crashAt, budget int) {
+	r.calls, r.crashAt, r.crashBudget, r.crashBond, r.crashUnbond = 0, crashAt, budget, 0, 0
+}
 
 var (
 	bondSponsors = []string{"s1", "s2", "s3"}
@@ -162,7 +263,8 @@ func (h *bondHarness) pend() map[string]int {
 
 func newBondHarness(t *testing.T, r *rand.Rand, nSponsors int) *bondHarness {
 	h := &bondHarness{t: t, db: memdb.New(), stub: &stubDSMR{}, mutable: verifMutable{}, txs: map[string]*chain.Transaction{}, names: map[string]string{}}
-	h.bonder = &recBonder{inner: ichain.NewBonder(h.db), failAt: -1}
+	cdb := &crashDB{Database: h.db, budget: -1}
+	h.bonder = &recBonder{inner: ichain.NewBonder(cdb), cdb: cdb, failAt: -1, crashAt: -1}
 	h.node = fdsmr.New[*stubDSMR, *chain.Transaction](h.stub, h.bonder)
 	info := map[string]any{}
 	for i, n := range bondTxNames {
@@ -265,7 +367,7 @@ func (h *bondHarness) build(names []string, rate int, fail string, bondFailAt in
 			built = append(built, h.names[tx.GetID().String()])
 		}
 	}
-	h.lines = append(h.lines, map[string]any{"ev": "build", "txs": names, "rate": rate, "oks": append([]bool{}, h.bonder.oks...), "built": built, "err": fail, "pend": h.pend()})
+	h.lines = append(h.lines, map[string]any{"ev": "build", "txs": names, "rate": rate, "oks": append([]bool{}, h.bonder.oks...), "built": built, "err": fail, "crashb": h.bonder.crashBond, "crashu": h.bonder.crashUnbond, "pend": h.pend()})
 }
 
 func (h *bondHarness) accept(ts int, incl []string) {
@@ -289,7 +391,7 @@ func (h *bondHarness) accept(ts int, incl []string) {
 	if incl == nil {
 		incl = []string{}
 	}
-	h.lines = append(h.lines, map[string]any{"ev": "accept", "ts": ts, "incl": incl, "pend": h.pend()})
+	h.lines = append(h.lines, map[string]any{"ev": "accept", "ts": ts, "incl": incl, "crashb": h.bonder.crashBond, "crashu": h.bonder.crashUnbond, "pend": h.pend()})
 }
 
 func (h *bondHarness) dump(name string) {
@@ -359,6 +461,12 @@ func TestVerifBondRecord(t *testing.T) {
 		ts := 0
 		var recent []string
 		for i := 0; i < depth; i++ {
+			// crash family: in a quarter of the Node calls one of the first Bond / Unbond calls dies after 0, 1 or 2
+			// durable writes (one write is all a correct Bond / Unbond makes), restarts and is retried
+			h.bonder.armCrash(-1, -1)
+			if r.Intn(4) == 0 {
+				h.bonder.armCrash(r.Intn(3), []int{0, 1, 1, 1, 2}[r.Intn(5)])
+			}
 			switch x := r.Intn(20); {
 			case x < 11: // build
 				k := 1 + r.Intn(4)
@@ -411,6 +519,7 @@ func TestVerifBondRecord(t *testing.T) {
 			}
 		}
 		// settle everything: every expiry is below 100
+		h.bonder.armCrash(r.Intn(2), 1)
 		h.accept(100, nil)
 		h.dump(fmt.Sprintf("bond%05d", s))
 	}
